@@ -1,4 +1,6 @@
-import FcpptProofs.C09.ToRoot
+import FcpptProofs.C09.Sort
+import FcpptProofs.C09.Output
+import FcpptProofs.C09.Progress
 /-!
 # C09 — property theorems
 
@@ -86,6 +88,23 @@ theorem address_unique {s : St} (h : Inv s) {p q : Path} {x y : PT}
     (hx : getF p s.forest = some x) (hy : getF q s.forest = some y) (he : x.id = y.id) : p = q :=
   getF_inj h.uniq hx hy he
 
+/-! ## progress: valid operations never fault -/
+
+/-- an operation whose operands exist and whose positions are in range, and that is not the excluded self-ownership misuse,
+succeeds in the model (no out-of-bounds access, no dangling link followed, terminates) -/
+theorem tree_step_progress {s : St} {op : Op} (hg : op.guard = true) (hv : op.valid s.forest) : ∃ s', step s op = .ok s' :=
+  step_progress hg hv
+
+/-- and `Op.valid` is not stronger than necessary: an operation that succeeds was valid -/
+theorem tree_step_ok_iff_valid {s : St} {op : Op} (hg : op.guard = true) : (∃ s', step s op = .ok s') ↔ op.valid s.forest :=
+  ⟨fun ⟨_, h⟩ => valid_of_step_ok hg h, step_progress hg⟩
+
+/-- the observers never fault on a heap that satisfies the invariant: `to_root` / `level` from any live object terminate
+without following a dangling link, `pre_order` terminates -/
+theorem observers_progress {s : St} (h : Inv s) {p : Path} {x : PT} (hx : getF p s.forest = some x) :
+    (∃ l, toRoot s.forest x = .ok l) ∧ (∃ n, level s.forest x = .ok n) ∧ (∃ l, preOrder x = .ok l) :=
+  ⟨⟨_, toRoot_eq h.uniq h.roots hx⟩, ⟨_, level_eq h.uniq h.roots hx⟩, ⟨_, preOrder_eq x⟩⟩
+
 /-! ## refinement: the heap denotes the forest the abstract operation yields -/
 
 theorem tree_refines {s s' : St} {op : Op} (hs : step s op = .ok s') :
@@ -134,6 +153,203 @@ theorem map_eq (f : Int → Int) (n : Nat) (t : PT) :
 /-- `operator==` decides equality of the denoted rose trees (addresses and links play no role) -/
 theorem eq_iff (a b : PT) : eqT a b = true ↔ abs a = abs b := eqT_iff a b
 
+/-- The property in one statement: after ANY history (that does not contain the excluded misuse and whose operands exist) the
+heap satisfies the link invariant, denotes exactly the forest of rose trees the reference model computes for the same history, and
+on every live node every observer returns what the reference computation returns on the corresponding reference node. -/
+theorem history_summary (ops : List Op) (s : St) (hr : runOps St.init ops = .ok s) :
+    Inv s ∧ RT.runOps [] ops = some (absF s.forest) ∧
+    ∀ (p : Path) (x : PT), getF p s.forest = some x →
+      RT.getF p (absF s.forest) = some (abs x) ∧
+      preOrder x = .ok (RT.flatten (abs x)) ∧ toRoot s.forest x = .ok (RT.ancestors p (absF s.forest)) ∧
+      level s.forest x = .ok (RT.level p) ∧ depth x = RT.depth (abs x) ∧
+      (∀ (c : Path) (C : PT), getF c s.forest = some C → childPosition x C = RT.childPos p c ∧ (eqT x C = true ↔ abs x = abs C)) ∧
+      (∀ f n, abs (mapT f n x) = RT.map f (abs x)) := by
+  have hi := history_inv ops s hr
+  refine ⟨hi, history_refines ops s hr, fun p x hx => ⟨by rw [abs_getF, hx]; rfl, pre_order_eq x, to_root_eq hi hx,
+    level_eq' hi hx, depth_eq' x, fun c C hC => ⟨child_position_eq hi hx hC, eq_iff x C⟩, fun f n => (map_eq f n x).1⟩⟩
+
+/-! ## `sort()` / `sort(Predicate)`: a stable permutation of the children, all links preserved -/
+
+/-- `sort()` is `sort(Predicate)` with `<` -/
+theorem sort_is_sort_by_less (ks : List PT) : sortKids ks = sortKidsBy (predOf 0) ks := sortKids_eq_sortKidsBy ks
+
+/-- the sorted child list consists of the very same child objects (address, `parent_`, whole sub-tree): nothing is copied,
+lost or duplicated -/
+theorem sort_children_perm (lt : Int → Int → Bool) (ks : List PT) : (sortKidsBy lt ks).Perm ks := sortKidsBy_perm lt ks
+
+/-- the result is ordered: no child is smaller than one in front of it -/
+theorem sort_children_sorted {lt : Int → Int → Bool} (h : StrictWeak lt) (ks : List PT) :
+    (sortKidsBy lt ks).Pairwise (fun x y => lt y.val x.val = false) := sortKidsBy_sorted h ks
+
+/-- the sort is stable: the children equivalent to `v` under the predicate keep their relative order -/
+theorem sort_children_stable {lt : Int → Int → Bool} (h : StrictWeak lt) (ks : List PT) (v : Int) :
+    (sortKidsBy lt ks).filter (fun x => !lt x.val v && !lt v x.val) = ks.filter (fun x => !lt x.val v && !lt v x.val) :=
+  sortKidsBy_stable_class h ks v
+
+/-- stability for a single pair: `x` before `y` and not `y < x` ⇒ still `x` before `y` -/
+theorem sort_children_stable_pair {lt : Int → Int → Bool} (h : StrictWeak lt) {ks : List PT} {x y : PT}
+    (hxy : lt y.val x.val = false) (hs : [x, y].Sublist ks) : [x, y].Sublist (sortKidsBy lt ks) :=
+  sortKidsBy_stable_pair h hxy hs
+
+/-- permutation + ordered + stable pin the result down: any arrangement of the children with these three properties is the
+one `sort(Predicate)` produces (so the specification does not depend on the algorithm inside `std::list::sort`) -/
+theorem sort_unique {lt : Int → Int → Bool} (h : StrictWeak lt) (ks l : List PT) (hp : l.Perm ks)
+    (hs : l.Pairwise (fun x y => lt y.val x.val = false)) (hst : ∀ v, l.filter (eqv lt v) = ks.filter (eqv lt v)) :
+    l = sortKidsBy lt ks := sortKidsBy_unique h ks l hp hs hst
+
+/-- sorting a sorted list changes nothing; in particular sorting twice is sorting once -/
+theorem sort_idempotent {lt : Int → Int → Bool} (h : StrictWeak lt) (ks : List PT) :
+    sortKidsBy lt (sortKidsBy lt ks) = sortKidsBy lt ks := sortKidsBy_idem h ks
+
+/-- the predicates used in the correspondence are strict weak orderings (the theorems above apply to them) -/
+theorem predicates_strict_weak (k : Nat) : StrictWeak (predOf k) := predOf_strictWeak k
+
+/-- `sort(Predicate)` on the node at path `a`: that node keeps address, value and `parent_`; its children are the same
+objects in stably sorted order, each still naming the node as its parent; the invariant holds afterwards -/
+theorem sort_step {s s' : St} {a : Path} {k : Nat} (h : Inv s) (hs : step s (.sortBy a k) = .ok s') :
+    ∃ t, getF a s.forest = some t ∧ getF a s'.forest = some (t.setKids (sortKidsBy (predOf k) t.kids)) ∧ Inv s' ∧
+      ∀ c ∈ sortKidsBy (predOf k) t.kids, c ∈ t.kids ∧ c.parent = some t.id := by
+  have hi := step_inv h rfl hs
+  simp only [step, bind_ok, nodeAt_ok] at hs
+  obtain ⟨t, hg, hs⟩ := hs
+  simp only [Except.ok.injEq] at hs; subst hs
+  refine ⟨t, hg, getF_putF_same hg, hi, fun c hc => ?_⟩
+  have hm := (sortKidsBy_perm (predOf k) t.kids).mem_iff.1 hc
+  exact ⟨hm, (kidsOK h.roots hg c hm).1⟩
+
+/-- the same for `sort()` -/
+theorem sort_default_step {s s' : St} {a : Path} (h : Inv s) (hs : step s (.sort a) = .ok s') :
+    ∃ t, getF a s.forest = some t ∧ getF a s'.forest = some (t.setKids (sortKidsBy (predOf 0) t.kids)) ∧ Inv s' ∧
+      ∀ c ∈ sortKidsBy (predOf 0) t.kids, c ∈ t.kids ∧ c.parent = some t.id := by
+  have hi := step_inv h rfl hs
+  simp only [step, bind_ok, nodeAt_ok] at hs
+  obtain ⟨t, hg, hs⟩ := hs
+  simp only [Except.ok.injEq] at hs; subst hs
+  rw [sortKids_eq_sortKidsBy] at hi ⊢
+  refine ⟨t, hg, getF_putF_same hg, hi, fun c hc => ?_⟩
+  have hm := (sortKidsBy_perm (predOf 0) t.kids).mem_iff.1 hc
+  exact ⟨hm, (kidsOK h.roots hg c hm).1⟩
+
+/-! ## `front()/back()`, `begin()/end()`, `rbegin()/rend()`, `size()/empty()` -/
+
+theorem front_eq (t : PT) : (front t).map abs = RT.front (abs t) := front_abs t
+theorem back_eq (t : PT) : (back t).map abs = RT.back (abs t) := back_abs t
+
+/-- `front()` / `back()` are empty exactly when `empty()` -/
+theorem front_back_none_iff_empty (t : PT) : (front t = none ↔ emptyK t = true) ∧ (back t = none ↔ emptyK t = true) :=
+  ⟨front_eq_none_iff t, back_eq_none_iff t⟩
+
+/-- `front()` of the node at path `p` is the object at path `p ++ [0]`: it names the node as parent and `child_position`
+finds it at position 0 -/
+theorem front_is_first_child {s : St} (h : Inv s) {r : Nat} {q : Path} {t c : PT} (ht : getF (r :: q) s.forest = some t)
+    (hc : front t = some c) :
+    getF (r :: (q ++ [0])) s.forest = some c ∧ c.parent = some t.id ∧ childPosition t c = some 0 := by
+  rw [front_eq_getElem] at hc
+  have hp : getF (r :: (q ++ [0])) s.forest = some c := by rw [getF_snoc, ht]; exact hc
+  refine ⟨hp, child_parent_is_owner h ht hc, ?_⟩
+  rw [child_position_eq h ht hp, ← List.cons_append, RT.childPos_snoc]
+
+/-- `back()` is the object at the last child position -/
+theorem back_is_last_child {s : St} (h : Inv s) {r : Nat} {q : Path} {t c : PT} (ht : getF (r :: q) s.forest = some t)
+    (hc : back t = some c) :
+    getF (r :: (q ++ [sizeK t - 1])) s.forest = some c ∧ c.parent = some t.id ∧ childPosition t c = some (sizeK t - 1) := by
+  rw [back_eq_getElem] at hc
+  have hp : getF (r :: (q ++ [sizeK t - 1])) s.forest = some c := by rw [getF_snoc, ht]; exact hc
+  refine ⟨hp, child_parent_is_owner h ht hc, ?_⟩
+  rw [child_position_eq h ht hp, ← List.cons_append, RT.childPos_snoc]
+
+/-- `begin() … end()` runs over the children in order, `rbegin() … rend()` in reverse order; `size()` is their number and
+`empty()` says whether it is zero -/
+theorem iterators_eq (t : PT) :
+    (fwd t).map abs = (abs t).kids ∧ rev t = (fwd t).reverse ∧ sizeK t = (fwd t).length ∧ (emptyK t = true ↔ sizeK t = 0) :=
+  ⟨fwd_abs t, rev_eq t, sizeK_eq t, emptyK_iff t⟩
+
+/-- the `j`-th position of `begin() … end()` on the node at path `p` refers to the object at path `p ++ [j]`; the `j`-th
+position of `rbegin() … rend()` to the object at `p ++ [size() - 1 - j]` -/
+theorem iterator_position {s : St} {r : Nat} {q : Path} {t : PT} (ht : getF (r :: q) s.forest = some t) (j : Nat) :
+    (fwd t)[j]? = getF (r :: (q ++ [j])) s.forest ∧
+      (j < sizeK t → (rev t)[j]? = getF (r :: (q ++ [sizeK t - 1 - j])) s.forest) :=
+  ⟨fwd_getElem ht j, fun hj => by rw [rev_getElem t j hj, fwd_getElem ht]⟩
+
+/-! ## the traversals as sequences of objects (what `pre_order` / `make_pre_order`, `to_root` / `make_to_root` iterate over) -/
+
+/-- `pre_order` visits the sub-objects themselves in recursive pre-order … -/
+theorem pre_order_nodes (t : PT) : preNodes t = .ok (subs t) := preNodes_eq t
+
+/-- … every object below (and including) the start node, each exactly once -/
+theorem pre_order_visits_all (t x : PT) : (x ∈ subs t ↔ ∃ q, getT q t = some x) ∧ (subs t).length = t.size :=
+  ⟨mem_subs_iff t x, length_subs t⟩
+
+/-- `to_root` from the node at path `p` visits that object and then the objects at the shorter and shorter prefixes of `p`:
+the `k`-th visited object is the one at `p` shortened by `k` -/
+theorem to_root_nodes {s : St} (h : Inv s) {r : Nat} {q : Path} {x : PT} (hx : getF (r :: q) s.forest = some x) :
+    ∃ l, toRootNodes s.forest x = .ok l ∧ l.length = q.length + 1 ∧
+      ∀ k, k ≤ q.length → l[k]? = getF (r :: q.take (q.length - k)) s.forest := by
+  refine ⟨_, toRootNodes_eq h.uniq h.roots hx, ?_, fun k hk => ?_⟩
+  · simp only [getF] at hx
+    cases ht : s.forest[r]? with
+    | none => simp [ht] at hx
+    | some t => simp only [ht] at hx; simp [nodesAlongF, ht, nodesAlongT_length q t x hx]
+  · simp only [getF] at hx ⊢
+    cases ht : s.forest[r]? with
+    | none => simp [ht] at hx
+    | some t =>
+      simp only [ht] at hx
+      have hl := nodesAlongT_length q t x hx
+      simp only [nodesAlongF, ht]
+      rw [List.getElem?_reverse (by omega), hl]
+      have := nodesAlongT_getElem q t x hx (q.length - k) (by omega)
+      rw [← this]; congr 1
+
+/-! ## `operator<<`: the printed form determines the tree -/
+
+/-- what is written: one line per node in pre-order, indentation = level below the printed node -/
+theorem output_eq (tab nl : Char) (t : PT) : output tab nl t = render tab nl (RT.lines 0 (abs t)) := by
+  simp [output, printT_eq]
+
+/-- the values appear in the output in pre-order (the order `pre_order` yields) -/
+theorem output_values_pre_order (t : PT) : (printT 0 t).map Prod.snd = RT.flatten (abs t) := by
+  rw [printT_eq, lines_values]
+
+/-- two trees with the same output denote the same rose tree, for any two distinct separator characters that decimal
+formatting never produces … -/
+theorem output_determines_tree {tab nl : Char} (hne : tab ≠ nl) (ht : IsSep tab) (hn : IsSep nl) (a b : PT)
+    (h : output tab nl a = output tab nl b) : abs a = abs b := by
+  rw [output_eq, output_eq] at h
+  exact lines_injective 0 _ _ (render_injective hne ht hn _ _ h)
+
+/-- … in particular for the tab and newline the code uses; and the output is equal exactly when `==` holds -/
+theorem output_eq_iff_equal (a b : PT) : output '\t' '\n' a = output '\t' '\n' b ↔ eqT a b = true := by
+  rw [eq_iff]
+  exact ⟨output_determines_tree (by simp) isSep_tab isSep_newline a b, fun h => by rw [output_eq, output_eq, h]⟩
+
+/-! ## `object(T&&, child_list&&)` and `map` with the identity -/
+
+/-- the tree built from a value and a copied child list: a new root, no parent, consistent links, denoting `v` over the
+children of the source; everything else is untouched -/
+theorem mk_from_step {s s' : St} {b : Path} {v : Int} (h : Inv s) (hs : step s (.mkFrom b v) = .ok s') :
+    ∃ t r, getF b s.forest = some t ∧ s'.forest = s.forest ++ [r] ∧ abs r = .node v (t.kids.map abs) ∧ r.parent = none ∧
+      LinkOK r ∧ (∀ i, 1 ≤ cntL i s.forest → cnt i r = 0) ∧ Inv s' := by
+  have hi := step_inv h rfl hs
+  simp only [step, bind_ok, nodeAt_ok] at hs
+  obtain ⟨t, hg, hs⟩ := hs
+  simp only [Except.ok.injEq] at hs; subst hs
+  refine ⟨t, _, hg, rfl, by simp [map_abs_copyLp], rfl,
+    linkOK_node.2 (linkOK_reparent (linkOK_copyLp_any _ _ _)), fun i hi' => ?_, hi⟩
+  have := h.fresh i
+  simp only [cnt_node, cntL_reparent, cntL_copyLp]
+  split <;> split <;> omega
+
+theorem RT.map_id : ∀ t : RT, RT.map (fun x => x) t = t :=
+  RT.ind (fun v ks ih => by
+    simp only [RT.map, RT.node.injEq, true_and]
+    conv => rhs; rw [← List.map_id ks]
+    exact List.map_congr_left (fun k hk => by simpa using ih k hk))
+
+/-- mapping with the identity yields an equal tree (made of new objects) -/
+theorem map_id (n : Nat) (t : PT) : eqT (mapT (fun x => x) n t) t = true := by
+  rw [eq_iff, (map_eq _ n t).1, RT.map_id]
+
 /-! ## copies are deep and independent -/
 
 /-- a copy denotes the same rose tree, consists of fresh objects only (shares no object with anything live),
@@ -155,6 +371,20 @@ theorem write_local (new : PT) (r : Nat) (q : Path) (F : List PT) (r' : Nat) (hn
   | none => rfl
   | some t => exact List.getElem?_set_ne (Ne.symm hne)
 
+/-- the same inside one tree: a write at path `a` leaves the object at every path that is neither above nor below `a`
+untouched (a copy assigned into another branch of the same tree is as independent as one in another tree) -/
+theorem write_disjoint (new : PT) {a b : Path} (F : List PT) (h1 : isPrefix a b = false) (h2 : isPrefix b a = false) :
+    getF b (putF new a F) = getF b F :=
+  getF_putF_disj h1 h2
+
+/-- a write at `b` that is not above `a` keeps the object at `a` in place: same address, value, `parent_` and number of
+children (only something below it changed) -/
+theorem write_below_keeps_node (new : PT) {a b : Path} {F : List PT} {t : PT} (h : isPrefix b a = false)
+    (ht : getF a F = some t) :
+    ∃ t', getF a (putF new b F) = some t' ∧ t'.kids.length = t.kids.length ∧ t'.val = t.val ∧ t'.id = t.id ∧
+      t'.parent = t.parent :=
+  getF_putF_not_below h ht
+
 /-! ## non-vacuity and the repaired defect -/
 
 /-- a history with inner-node operands of every binary kind runs to completion (so the theorems above are not vacuous) -/
@@ -163,6 +393,23 @@ example : (runOps St.init
      .swap [0, 1] [1], .moveAssign [1, 0] [0, 1], .copyAssign [1, 0, 1] [1], .insT [1] (.at 1) [0, 1],
      .pop [0] .back true, .moveCtor [0, 0], .erase [1] 0, .clear [2], .eraseRange [0] 0 1, .setVal [1, 0] 7,
      .del 0]).toBool = true := by decide +kernel
+
+/-- `sort(Predicate)` and `object(T&&, child_list&&)` in a history; a concrete stable sort: by `v % 3` the children
+`4 3 1 6` (keys `1 0 1 0`) become `3 6 4 1` -/
+example : (runOps St.init
+    [.new 0, .insV [0] .back 4, .insV [0] .back 3, .insV [0] .back 1, .insV [0] .back 6, .insV [0, 1] .back 9,
+     .sortBy [0] 2, .mkFrom [0] 7, .sortBy [1] 1, .sort [1]]).toBool = true := by decide +kernel
+
+example : ((sortKidsBy (predOf 2) [mkLeaf 0 4, mkLeaf 1 3, mkLeaf 2 1, mkLeaf 3 6]).map PT.id) = [1, 3, 0, 2] := by
+  simp [sortKidsBy, mkLeaf, predOf, List.mergeSort, List.MergeSort.Internal.splitInTwo]
+
+/-- the printed form of `1(2(4) 3)` -/
+example : printT 0 (.node 0 1 none [.node 1 2 (some 0) [.node 2 4 (some 1) []], .node 3 3 (some 0) []])
+    = [(0, 1), (1, 2), (2, 4), (1, 3)] := by simp [printT]
+
+/-- same pre-order values, different structure ⇒ different output (what a flattened comparison would confuse) -/
+example : printT 0 (.node 0 1 none [.node 1 2 none [.node 2 3 none []]]) ≠
+    printT 0 (.node 0 1 none [.node 1 2 none [], .node 2 3 none []]) := by simp [printT]
 
 /-- the unrepaired `swap` (before 05c8c12): values and `parent_` exchanged, child lists exchanged without re-parenting -/
 def oldSwap (ta tb : PT) : PT × PT :=
